@@ -331,6 +331,8 @@ func Main(tier string, replay string) {
 		done(small.enumerate(5, deadline, "10-entry alphabet"), "all ordered lists of length 5 over 10 entries")
 		done(small.enumerate(6, deadline, "10-entry alphabet"), "all ordered lists of length 6 over 10 entries")
 	}
+	validatorLevel(run, tier)
+	bounds = append(bounds, "validator level: 3 prefix pairs x 4x4 method routes x same/different verb x optional third method, each as a generated project through the real ApiValidator")
 	run.Bound = strings.Join(bounds, "; ")
 	run.Rule = "state = one ordered route list (every entry has its own identity); transition = one paths.FindConflicts call on it; validated = lists whose conflict set was compared with the statement's overlap relation (soundness, completeness, hence order-independence of the flagged set)"
 	run.Sample(map[string]any{"list": []entry{{Path: "/a/{x}", Verb: "GET"}, {Path: "/{y}/b", Verb: "GET"}, {Path: "/a/b", Verb: "POST"}}, "expected_flagged": []int{0, 1}})
